@@ -183,6 +183,18 @@ func c04Case(rng *rand.Rand, i int) obj {
 					}
 					if isCmd {
 						m = append(m, [2]any{"twins", twins()}, [2]any{"meta", orderedJSON{{"deep", twins()}}})
+						// ... and as DIRECT keys of Go-map-backed levels: the step's unknown fields and its env
+						m = append(m, [2]any{spell(esc), "a-step"}, [2]any{spell(ref), "b-step"})
+						hasEnv := false
+						for qi, q := range m {
+							if e, ok := q[1].(orderedJSON); ok && q[0] == "env" {
+								m[qi][1] = append(append(orderedJSON{}, e...), [2]any{spell(esc), "a-env"}, [2]any{spell(ref), "b-env"})
+								hasEnv = true
+							}
+						}
+						if !hasEnv {
+							m = append(m, [2]any{"env", orderedJSON{{spell(esc), "a-env"}, {spell(ref), "b-env"}}})
+						}
 						steps[si] = m
 						break
 					}
@@ -190,7 +202,7 @@ func c04Case(rng *rand.Rand, i int) obj {
 			}
 			top[pi][1] = steps
 		}
-		top = append(top, [2]any{"x-twins", twins()})
+		top = append(top, [2]any{"x-twins", twins()}, [2]any{spell(esc), "a-top"}, [2]any{spell(ref), "b-top"})
 		doc = top
 	}
 	src := string(asciiJSON(doc))
